@@ -499,7 +499,30 @@ impl C16 {
         if kind != 0 && dseq != seq {
             return Err(Fail::new("netcode_sequence", format!("sequence returned {dseq} differs from the one sealed {seq}")));
         }
-        // decode must also agree when presented again from fresh bytes (in-place decryption must not leak state)
+        // the challenge token inside Challenge / Response packets: what the server seals for a client id and user data opens to the
+        // same id and user data (ids of every magnitude)
+        if kind == 2 || kind == 3 {
+            let cid = match seq % 5 {
+                0 => u64::from_le_bytes(key[..8].try_into().unwrap()),
+                1 => u64::MAX,
+                2 => 1 << 56,
+                3 => (1 << 63) | (seq >> 3),
+                _ => seq & 0xFFFF,
+            };
+            let mut ud = [0u8; 256];
+            fill_stream(cid ^ 0x77, &mut ud);
+            let tseq = seq.rotate_left(17);
+            match NPacket::generate_challenge(cid, &ud, tseq, &key) {
+                Ok(NPacket::Challenge { token_sequence, token_data }) => {
+                    let opened = renetcode::verif::ChallengeToken::decode(token_data, token_sequence, &key).map_err(|e| Fail::new("challenge_token_roundtrip", format!("a challenge token does not open under its own key and sequence: {e}")))?;
+                    if opened.client_id != cid || opened.user_data != ud || token_sequence != tseq {
+                        return Err(Fail::new("challenge_token_roundtrip", format!("challenge token sealed for client id {cid:#x} opens to client id {:#x} (user data equal: {})", opened.client_id, opened.user_data == ud)));
+                    }
+                    ctx.label("challenge_token");
+                }
+                other => return Err(Fail::new("challenge_token_roundtrip", format!("generate_challenge returned {:?}", other.map(|p| p.id())))),
+            }
+        }
         ctx.label("netcode_value");
         if class >= 2 || kind == 5 {
             ctx.nontrivial = true;
@@ -789,7 +812,7 @@ impl Property for C16 {
         "exploration"
     }
     fn rule(&self) -> String {
-        "Cases: (a) generated values of every renet packet kind, every netcode packet kind x sequence-length class 0..8 x payload 0..1300, connect tokens with 1..32 IPv4/IPv6 addresses (also written and read through an io::Write / io::Read that moves 1..2047 bytes per call): decode(encode(v)) == v; (b) mutated serialisations and raw bytes: decode(b)=Ok(v) => decode(encode(v))=Ok(v) for renet packets, keyless netcode requests and ConnectToken::read; (c) ack packets emitted by a real endpoint after feeding it chosen sequence numbers, compared with a BTreeSet model (exhaustively: all subsets of three 12-element universes in 4 arrival orders; generated: up to 300 sequences). Non-trivial: a value crossing a varint/sequence width boundary or a payload packet, a byte string that decodes, a token with >=2 or IPv6 addresses, an ack set with >=3 ranges. Distinct = distinct hash of the decoded case.".into()
+        "Cases: (a) generated values of every renet packet kind, every netcode packet kind x sequence-length class 0..8 x payload 0..1300, challenge tokens for client ids of every magnitude (seal / open), connect tokens with 1..32 IPv4/IPv6 addresses (also written and read through an io::Write / io::Read that moves 1..2047 bytes per call): decode(encode(v)) == v; (b) mutated serialisations and raw bytes: decode(b)=Ok(v) => decode(encode(v))=Ok(v) for renet packets, keyless netcode requests and ConnectToken::read; (c) ack packets emitted by a real endpoint after feeding it chosen sequence numbers, compared with a BTreeSet model (exhaustively: all subsets of three 12-element universes in 4 arrival orders; generated: up to 300 sequences). Non-trivial: a value crossing a varint/sequence width boundary or a payload packet, a byte string that decodes, a token with >=2 or IPv6 addresses, an ack set with >=3 ranges. Distinct = distinct hash of the decoded case.".into()
     }
     fn assumptions(&self) -> Vec<String> {
         vec![
